@@ -28,7 +28,8 @@ AsEvent(r) ==
    tree |-> r.tree,
    hdr |-> [mhas |-> TRUE, mok |-> TRUE, ohas |-> r.hdr.form # "none",
             ook |-> TRUE, method |-> r.hdr.method, form |-> r.hdr.form,
-            ns |-> r.hdr.ns, cls |-> r.hdr.cls, keys |-> r.hdr.keys]]
+            ns |-> r.hdr.ns, nss |-> r.hdr.ns, cls |-> r.hdr.cls,
+            keys |-> r.hdr.keys]]
 
 ImplValid == R.emit => ValidTree(R.tree)
 ImplHeaders == (R.emit /\ ValidTree(R.tree)) => HeaderFaults(AsEvent(R)) = {}
@@ -37,6 +38,11 @@ ImplReqOk == Fails(InitState, AsEvent(R)) = {}
 EmitInv == Emit => PrintT(<<"CASE", ToJson(c)>>)
 
 ASSUME Variant \subseteq Flags
+(* every namespace value class occurs in every role of the case space *)
+ASSUME \A cl \in NsClasses :
+         \A role \in {{"d1", "d2", "de", "dg"}, {"a1", "a2", "ae", "ag"},
+                      {"o", "oe", "og"}, {"c", "ce", "cg"}, {"r", "re", "rg"}} :
+           \E id \in role : NsClassOf(NsTok(id)) = cl
 ASSUME PrintT(<<"OPTABLE", ToJson(OpTable)>>)
 ASSUME PrintT(<<"ITERTARGET", ToJson(IterTarget)>>)
 =============================================================================
